@@ -18,6 +18,9 @@ type Config struct {
 	Preseed map[string][]int `json:"preseed,omitempty"`
 	// Clients > 1: concurrent mode (C14); ops are dealt round-robin.
 	Clients int `json:"clients,omitempty"`
+	// Files: packable files (chunks, nested bytes schemas, file blob) appended
+	// to the blob pool, so that compositions containing blobpacked really pack
+	Files []c04File `json:"files,omitempty"`
 	// C13: window of operations whose lower-layer calls are fault-enumerated
 	C13 *c13Config `json:"c13,omitempty"`
 	C03 *c03Config `json:"c03,omitempty"`
